@@ -222,6 +222,7 @@ def _c13_sweeps():
         sweep("sweep-3x2-between", "c13_pq", (1, 2), mid, what="same programs, pushed priorities interleaved with the initial contents", tiers=("quick", "thorough")),
         sweep("sweep-3x2-ties", "c13_pq", (1, 2), tie, what="same programs, pushed priorities tie with the initial contents"),
         sweep("sweep-3x2-empty", "c13_pq", (1, 2), emp, what="same programs on an empty queue"),
+        sweep("sweep-4x1-q", "c13_pq", (1, 1), [x for x in four if x["prog"].count("G") == 1], what="four threads: one try_pop and three pushes / emplaces in every combination (a batch with a postponed pop and several pushes that are heapified afterwards)", tiers=("quick",)),
         sweep("sweep-4x1", "c13_pq", (1, 2), four, what="four threads, one emplace / push(&&) / try_pop each (larger aggregator batches)"),
         sweep("sweep-3x2-throw", "c13_pq", (1, 2), thr, what="programs with at least two pushes; the first or the second element copy throws"),
     ]
@@ -409,6 +410,7 @@ PROPS["C19"] = {
         leg("ets-swap", "c19_ets", (2, 3), {"kind": "swap", "mode": 0}, what="contents exchanged by three moves"),
         leg("ets-key-move", "c19_ets", (2, 3), {"kind": "swap_key", "mode": 1}, what="ets_key_per_instance: move assignment must carry the native TLS key"),
         leg("ets-key-swap", "c19_ets", (2, 3), {"kind": "swap_key", "mode": 0}, what="ets_key_per_instance: exchange by three moves"),
+        sweep("ets-clear", "c19_ets", (1, 2), [{"kind": k, "mode": m} for k in ("clear", "clear_key") for m in (0, 1, 2)], what="two threads use a container, the contents are cleared (clear() / copy assignment from an empty / from a used container), the same threads use it again: their next local() is a first use (fresh element, one initialiser call each, exists == false); default and ets_key_per_instance (native TLS key) variants", tiers=("quick", "thorough")),
         leg("combinable", "c19_ets", (2, 2), {"kind": "comb", "pre": 2, "n": 3}, what="combinable: combine / combine_each"),
         leg("once-2", "c19_once", (2, 3), {"callers": 2, "mask": 0}, flags=("-fp", "-hb"), what="two callers, no exception", weight=2.0),
         leg("once-2-throw1", "c19_once", (2, 3), {"callers": 2, "mask": 1}, flags=("-fp", "-hb"), what="first attempt throws, second caller retries", weight=2.0),
